@@ -50,7 +50,11 @@ def body(l):
 
 
 def report(ro_text):
-    ro = RunningOrder.from_string(ro_text)
+    return report_obj(RunningOrder.from_string(ro_text))
+
+
+def report_obj(ro):
+    """the report of a RunningOrder object (possibly one that has been merged into)"""
     if ro.xml.find('roCreate') is None:
         return 'norc'
     t_us = lambda d: 'V%d' % us(d)
